@@ -1,6 +1,7 @@
 """Shared machinery of the C14 / C15 plug-ins (engine `monitor`, T3).
 
-A *case* is: one `object …` line, optionally `spurious`, `thread k: ops…` lines and one or more
+A *case* is: one `object …` line, optionally `spurious`, for a pool optionally `waits ids…` / `opens ids…`
+(tasks that block inside task() until the gate is open / that open it), `thread k: ops…` lines and one or more
 `schedule …` lines.  harness/monitor_drv.cc runs the real muduo classes under the deterministic
 scheduler for every schedule line; lean/Driver/MonitorDrv.lean runs the Lean transition systems under
 the same scheduler rules.  This module: generators, the differential run, the independent oracle
@@ -20,13 +21,24 @@ ENGINE = "monitor"
 class MCase:
     """object line, spurious flag, thread programs (lists of op tokens such as 'put 3', 'take'), schedules"""
 
-    def __init__(self, obj, threads, schedules, spurious=False, origin="generated"):
+    def __init__(self, obj, threads, schedules, spurious=False, origin="generated", waits=(), opens=()):
         self.obj, self.threads, self.schedules, self.spurious, self.origin = obj, [list(t) for t in threads], [list(s) for s in schedules], spurious, origin
+        self.waits, self.opens = list(waits), list(opens)      # pool only: task ids that wait for / open the gate
+
+    def clone(self, **kw):
+        d = dict(obj=self.obj, threads=self.threads, schedules=self.schedules, spurious=self.spurious, origin=self.origin,
+                 waits=self.waits, opens=self.opens)
+        d.update(kw)
+        return MCase(**d)
 
     def lines(self):
         out = ["object " + self.obj]
         if self.spurious:
             out.append("spurious")
+        if self.waits:
+            out.append("waits " + " ".join(str(x) for x in self.waits))
+        if self.opens:
+            out.append("opens " + " ".join(str(x) for x in self.opens))
         for i, ops in enumerate(self.threads):
             out.append(("thread %d: %s" % (i + 1, " ".join(ops))).rstrip())
         for s in self.schedules:
@@ -37,7 +49,7 @@ class MCase:
         return self.obj.split()[0]
 
     def with_schedules(self, schedules):
-        return MCase(self.obj, self.threads, schedules, self.spurious, self.origin)
+        return self.clone(schedules=schedules)
 
 
 def parse_cases(lines, origin="file"):
@@ -55,6 +67,8 @@ def parse_cases(lines, origin="file"):
             continue
         elif w[0] == "spurious":
             cur.spurious = True
+        elif w[0] in ("waits", "opens"):
+            (cur.waits if w[0] == "waits" else cur.opens).extend(int(x) for x in w[1:])
         elif w[0] == "thread":
             ops, i = [], 2
             while i < len(w):
@@ -224,14 +238,35 @@ def oracle_c14(case, block):
     return []
 
 
+MON = re.compile(r"# mon q=(\d+) run=(\d) neW=(\d+) neS=(\d+) nfW=(\d+) nfS=(\d+)$")
+
+
 def oracle_c15(case, block):
-    """the property C15 evaluated on one schedule run of the implementation"""
+    """the property C15 evaluated on one schedule run of the implementation.
+
+    Besides the events (`exec`, `pass`, returns of run()/stop()/open) it reads the `# mon` snapshots the harness prints
+    whenever the pool's mutex is released: the real queue length, running_, and per condition the number of waiters
+    not yet notified (W) and notified but not yet back in the monitor (S).  On them: the bound, and "no wake-up is
+    lost" - while the pool runs, a worker sleeping unnotified means every queued task has a notified worker on its
+    way (queue length <= S of notEmpty_); a producer sleeping unnotified means every free place has a notified
+    producer on its way (maxQueueSize - queue length <= S of notFull_).
+
+    Tasks of kind `waits` block inside task() until the gate is open (`opens` tasks and the caller operation `open`
+    open it): a worker inside such a task is in scheduler state `poll`.  In a state where no thread can run, the only
+    threads that may legitimately be left are: workers inside a waiting task while the gate is closed; a stop() joining
+    such a worker; idle workers facing an empty queue; producers facing a full queue while EVERY worker is inside a
+    waiting task.  In particular a queued task with a worker idle on notEmpty_ is a violation (a free worker takes up
+    a queued task - tasks may rely on tasks accepted after them)."""
     w = case.obj.split()
     nthreads, maxq = int(w[1]), int(w[2])
     first = nthreads + 1                      # first caller thread
+    waits = set(case.waits) if nthreads > 0 else set()
+    opens = set(case.opens) - waits if nthreads > 0 else set()
     accepted, execd = [], []
     called_after_stop = set()
     in_call = {}                              # caller thread -> id of the run() it is in
+    in_task = {}                              # worker -> id of the waiting task it is inside
+    gate_open = False
     stopflag = False
     stop_returned = False
     ended, final = None, None
@@ -244,6 +279,19 @@ def oracle_c15(case, block):
             continue
         if l.startswith("# stopflag"):
             stopflag = True
+            continue
+        m = MON.match(l)
+        if m:
+            q, run, neW, neS, nfW, nfS = (int(x) for x in m.groups())
+            if maxq > 0 and q > maxq:
+                return [("bounded", "`%s`: queue_ holds %d tasks, maxQueueSize is %d" % (l, q, maxq))]
+            if run and neW > 0 and q > neS:
+                return [("no_lost_signal", "`%s`: the pool runs, %d task(s) are queued, %d worker(s) sleep on notEmpty_ without having "
+                         "been notified and only %d notified worker(s) are on their way: a wake-up was lost" % (l, q, neW, neS))]
+            if run and maxq > 0 and nfW > 0 and maxq - q > nfS:
+                return [("no_lost_signal", "`%s`: the pool runs, the queue has %d free place(s) (maxQueueSize %d), %d producer(s) sleep "
+                         "on notFull_ without having been notified and only %d notified producer(s) are on their way: a wake-up "
+                         "was lost" % (l, maxq - q, maxq, nfW, nfS))]
             continue
         m = re.match(r"# call T(\d+) run (\d+)$", l)
         if m:
@@ -268,6 +316,8 @@ def oracle_c15(case, block):
                 continue
             if not 1 <= t <= nthreads:
                 return [("on_pool_thread", "`%s`: T%d is not a pool thread (the pool has %d)" % (l, t, nthreads))]
+            if t in in_task:
+                return [("trace", "`%s`: T%d is still inside task %d" % (l, t, in_task[t]))]
             if stop_returned:
                 return [("quiet_after_stop", "`%s`: a task starts after stop() has returned" % l)]
             if tid in called_after_stop:
@@ -276,8 +326,21 @@ def oracle_c15(case, block):
             if k >= len(accepted) or accepted[k] != tid:
                 return [("fifo_takeup", "`%s`: tasks accepted in the order %s, started so far %s" % (l, accepted, execd))]
             execd.append(tid)
+            if tid in waits:
+                in_task[t] = tid
+            elif tid in opens:
+                gate_open = True
             continue
-        m = re.match(r"T(\d+) (run|stop)(?: (\d+))? -> ok$", l)
+        m = re.match(r"T(\d+) pass (\d+)$", l)
+        if m:
+            t, tid = int(m.group(1)), int(m.group(2))
+            if in_task.get(t) != tid:
+                return [("trace", "`%s`: T%d is not inside task %d" % (l, t, tid))]
+            if not gate_open:
+                return [("trace", "`%s`: the gate has not been opened" % l)]
+            del in_task[t]
+            continue
+        m = re.match(r"T(\d+) (run|stop|open)(?: (\d+))? -> ok$", l)
         if not m:
             return [("trace", "unreadable event line `%s`" % l)]
         t, op, arg = int(m.group(1)), m.group(2), m.group(3)
@@ -297,6 +360,8 @@ def oracle_c15(case, block):
                 accepted.append(tid)
                 if maxq > 0 and len(accepted) - len(execd) > maxq:
                     return [("bounded", "`%s`: %d tasks are queued, maxQueueSize is %d" % (l, len(accepted) - len(execd), maxq))]
+        elif op == "open":
+            gate_open = True
         else:
             if not stopflag:
                 return [("trace", "`%s` without the flag having been cleared" % l)]
@@ -308,6 +373,8 @@ def oracle_c15(case, block):
         for t, n in done.items():
             if n != len(case.threads[t - first]):
                 return [("trace", "`done` although T%d completed %d of %d operations" % (t, n, len(case.threads[t - first])))]
+        if in_task:
+            return [("trace", "`done` although %s never left their waiting tasks" % sorted(in_task))]
         if nthreads > 0:
             if queued and not stopflag:
                 return [("exactly_once", "tasks %s were accepted and never started although stop() was not called" % queued)]
@@ -318,21 +385,41 @@ def oracle_c15(case, block):
                 return [("exactly_once", "queueSize() is %d at the end; accepted %s, started %s" % (final, accepted, execd))]
         return []
     st = parse_blocked(ended)
+    # workers inside a waiting task (scheduler state `poll`): legitimate only while the gate is closed
+    gated = set()
+    for t in sorted(st):
+        if t > 0 and st[t][0] == "poll":
+            if not (1 <= t <= nthreads and t in in_task):
+                return [("nobody_stuck", "T%d is left in poll although it is not inside a waiting task: `%s`" % (t, ended))]
+            if gate_open:
+                return [("nobody_stuck", "T%d is left inside waiting task %d although the gate is open: `%s`" % (t, in_task[t], ended))]
+            gated.add(t)
+    all_gated = nthreads > 0 and len(gated) == nthreads
     if stopflag:
-        return [("stop_returns", "stop() has cleared the flag and yet no thread can run: `%s`" % ended)]
+        for t in sorted(st):
+            if t <= 0 or st[t][0] == "fin" or t in gated:
+                continue
+            s_, obj, label = st[t]
+            if s_ == "join" and label == "stop" and re.match(r"T\d+$", obj) and int(obj[1:]) in gated:
+                continue
+            return [("stop_returns", "stop() has cleared the flag and yet no thread can run; T%d is left in %s(%s)[%s]: `%s`"
+                     % (t, s_, obj, label, ended))]
+        return []
     for t in sorted(st):
         if t <= 0:
             continue
-        s, obj, label = st[t]
-        if s == "fin":
+        s_, obj, label = st[t]
+        if s_ == "fin" or t in gated:
             continue
-        what = "T%d is left in %s(%s)[%s]" % (t, s, obj, label)
-        if s == "wait" and obj == "notEmpty" and 1 <= t <= nthreads:
+        what = "T%d is left in %s(%s)[%s]" % (t, s_, obj, label)
+        if s_ == "wait" and obj == "notEmpty" and 1 <= t <= nthreads:
             if queued:
                 return [("nobody_stuck", "%s although tasks %s are queued: `%s`" % (what, queued, ended))]
+        elif s_ == "wait" and obj == "notFull" and label == "run" and t >= first and maxq > 0 and len(queued) >= maxq and all_gated:
+            pass    # the queue is full and every worker is inside a waiting task: the program's own deadlock
         else:
             return [("nobody_stuck", "%s in a state where no thread can run: `%s`" % (what, ended))]
-    if queued:
+    if queued and not all_gated:
         return [("exactly_once", "tasks %s are queued, the pool runs, and no thread can run: `%s`" % (queued, ended))]
     return []
 
@@ -390,6 +477,10 @@ class Runner:
                 ctx.count("object:" + c.kind())
                 if c.spurious:
                     ctx.count("spurious_runs")
+                if c.waits or c.opens:
+                    ctx.count("dependent_task_runs")
+                    if "poll" in ended:
+                        ctx.count("end:blocked_inside_waiting_task")
                 one = c.with_schedules([c.schedules[i]])
                 ctx.record(Case(ENGINE, one.lines()), [blk], nontrivial=bool(dec) or ended.startswith("blocked"),
                            sample={"case": one.lines(), "trace": [l for l in blk if not l.startswith("#")][:12]})
@@ -436,9 +527,9 @@ class Runner:
                     while th and not th[-1]:
                         th.pop()
                     if th:
-                        vs.append(MCase(c.obj, th, c.schedules, c.spurious, c.origin))
+                        vs.append(c.clone(threads=th))
                 for v in vs:
-                    key = (v.obj, tuple(tuple(t) for t in v.threads), v.spurious)
+                    key = (v.obj, tuple(tuple(t) for t in v.threads), v.spurious, tuple(v.waits), tuple(v.opens))
                     if key not in seen:
                         seen.add(key)
                         variants.append(v)
@@ -478,9 +569,15 @@ class Runner:
         def build(ts, sched):
             n = max([i for i, _ in ts], default=-1) + 1
             th = [[op for j, op in ts if j == i] for i in range(n)]
-            return MCase(cur.obj, th, [sched], cur.spurious, cur.origin)
+            return cur.clone(threads=th, schedules=[sched])
         toks = ddmin(toks, lambda ts: still(build(ts, cur.schedules[0])), budget=120)
         cur = build(toks, cur.schedules[0])
+        # 1b. task kinds: a waiting / opening task that need not be one
+        for field in ("waits", "opens"):
+            for x in list(getattr(cur, field)):
+                trial = cur.clone(**{field: [y for y in getattr(cur, field) if y != x]})
+                if still(trial):
+                    cur = trial
         # 2. the schedule: drop entries, then zero them
         sched = ddmin(list(cur.schedules[0]), lambda sc: still(build(toks, sc)), budget=80) if len(cur.schedules[0]) >= 2 else cur.schedules[0]
         if len(sched) == 1 and still(build(toks, [])):
@@ -494,7 +591,7 @@ class Runner:
             sched = sched[:-1]
         cur = build(toks, sched)
         if cur.spurious:
-            trial = MCase(cur.obj, cur.threads, cur.schedules, False, cur.origin)
+            trial = cur.clone(spurious=False)
             if still(trial):
                 cur = trial
         return cur
